@@ -6,7 +6,7 @@ SPEC = {
     "harness": "c04",
     "harness_args": {
         "quick": ["-store", 150, "-ops", 45, "-hist", 30, "-batches", 10, "-queries", 3],
-        "thorough": ["-store", 400, "-ops", 60, "-hist", 70, "-batches", 14, "-queries", 4, "-big", 2],
+        "thorough": ["-store", 2000, "-ops", 60, "-hist", 300, "-batches", 14, "-queries", 4, "-big", 3],
     },
     "timeout": {"quick": 600, "thorough": 3000},
     "level": "proof",
